@@ -62,7 +62,7 @@ def cases(tier, seed, shard, nshards):
             k += 1
             if k % nshards == shard:
                 yield c
-    n = (3000 if tier == "quick" else 300000) // nshards
+    n = (24000 if tier == "quick" else 400000) // nshards
     rnd = random.Random("C04:%d:%d" % (seed, shard))
     kinds_ = ["select", "select", "select", "setop", "insert", "update", "delete", "create"]
     for i in range(n):
@@ -75,7 +75,7 @@ def cases(tier, seed, shard, nshards):
             prog = f.grow(rnd.randint(5, 12))
             tgt = len(prog["steps"]) - 1
         yield {"k": "program", "prog": prog, "tgt": tgt}
-    m = (1500 if tier == "quick" else 60000) // nshards
+    m = (8000 if tier == "quick" else 120000) // nshards
     for i in range(m):
         yield {"k": "sqlite", "s": "%d:%d:%d" % (seed, shard, i)}
 
@@ -319,6 +319,16 @@ def check_object(o, d, mon, label):
         # localise: which node created the first parameter that is out of order
         return (fault[0], "%s; parameterised %r values %r; inline %r" % (fault[1], sql_p[:260], [repr(v)[:20] for v in values][:12], sql_i[:260]),
                 {"sql_p": sql_p, "values": [repr(v) for v in values], "sql_i": sql_i, "create_param_order": [repr(v)[:30] for v in tree.param_events]})
+    if isinstance(o, reg["QueryBuilder"]) and o.QUERY_CLS is reg[d]:
+        # the default path users take: get_parameterized_sql() / get_sql() without a context
+        try:
+            s3, v3 = o.get_parameterized_sql()
+            mon.count("default_path_checks")
+            if s3 != sql_p or [repr(x) for x in v3] != [repr(x) for x in values] or o.get_sql() != sql_i:
+                return ("default-path-differs", "get_parameterized_sql()/get_sql() without a context differ from the renderings through %s.SQL_CONTEXT: %r %r" % (
+                    d, s3[:200], [repr(x)[:20] for x in v3][:8]), None)
+        except Exception as e:
+            return ("raises:%s" % type(e).__name__, "get_parameterized_sql() raised %r" % e, None)
     if isinstance(o, reg["QueryBuilder"]):  # (hasattr would be answered by __getattr__ with a Field)
         try:
             s2, v2 = o.get_parameterized_sql(ctx)
